@@ -34,7 +34,7 @@ def consts(**kw):
     return c
 
 
-STAGE = {"quick": [("N4", consts(), 8, [0, 1]), ("N3", consts(N=3, LoHi=3), 1, None)],
+STAGE = {"quick": [("N4", consts(), 16, [0, 1]), ("N3", consts(N=3, LoHi=3), 1, None)],
          "thorough": [("N5", consts(N=5), 64, list(range(8))), ("N4", consts(), 8, None), ("N6-sum-median", consts(N=6, VPos=1, Kinds={"mean", "median"}, LoHi=1), 64, list(range(8)))]}
 
 
